@@ -3,6 +3,7 @@ package c03
 
 import (
 	"bufio"
+	"bytes"
 	"context"
 	"encoding/json"
 	"fmt"
@@ -84,9 +85,9 @@ func (prop) Run(b core.Batch, em *core.Emitter) {
 // ---------------------------------------------------------------------------------------------
 // the server child
 
-// The hostile account may disconnect users (22): the sentinels hold cannot-be-disconnected (23), so the only users a
+// The hostile account may set file and folder comments (28, 29) and disconnect users (22): the sentinels hold cannot-be-disconnected (23), so the only users a
 // hostile session can legitimately remove are other hostile sessions.
-var hostileBits = []int{1, 2, 9, 10, 11, 20, 21, 22, 24, 26, 32, 38, 39, 40}
+var hostileBits = []int{1, 2, 9, 10, 11, 20, 21, 22, 24, 26, 28, 29, 32, 38, 39, 40}
 
 func accounts() []fixture.Account {
 	return []fixture.Account{
@@ -415,6 +416,30 @@ func hostileControl(r *core.Rand) hostileConn {
 			b, cl := mutate(r, typ, uint32(i+2))
 			h.stream = append(h.stream, b...)
 			classes = append(classes, fmt.Sprintf("%d/%s", typ, cl))
+		}
+		if r.Chance(1, 5) {
+			// well-formed requests that leave state behind, with their main text field at the limits of what one
+			// transaction can carry: what they store is later read by other users' requests
+			n := core.Pick(r, []int{255, 256, 4095, 4096, 32767, 32768, 65000, 65400 + r.Intn(130)})
+			text := bytes.Repeat([]byte{byte('a' + r.Intn(26))}, n)
+			var t rc.Tran
+			switch r.Intn(6) {
+			case 0:
+				t = rc.Tran{Type: 207, Fields: []rc.Field{rc.FS(201, "file.txt"), rc.F(202, rc.PathS("public")), rc.F(210, text)}}
+			case 1:
+				t = rc.Tran{Type: 410, Fields: []rc.Field{rc.F(325, rc.PathS("cat")), rc.F(326, rc.U32(0)), rc.FS(328, "limit"), rc.FS(327, "text/plain"), rc.F(333, text)}}
+			case 2:
+				t = rc.Tran{Type: 103, Fields: []rc.Field{rc.F(101, text)}}
+			case 3:
+				t = rc.Tran{Type: 304, Fields: []rc.Field{rc.F(102, text), rc.F(104, rc.U16(1))}}
+			case 4:
+				t = rc.Tran{Type: 207, Fields: []rc.Field{rc.FS(201, "dir"), rc.F(202, rc.PathS("public")), rc.F(210, text)}}
+			case 5:
+				t = rc.Tran{Type: 105, Fields: []rc.Field{rc.F(101, text)}}
+			}
+			t.ID = uint32(n)
+			h.stream = append(h.stream, t.Encode()...)
+			classes = append(classes, fmt.Sprintf("%d/limit-size", t.Type))
 		}
 		h.class = "mutated:" + strings.Join(classes, ",")
 		h.noRead = r.Chance(1, 6)
